@@ -610,6 +610,9 @@ func (f *Frame) intrinsic(name string, callee *ssa.Function, args []Val, pos tok
 		return Val{T: callee.Signature.Results().At(0).Type(), S: c.bind("str2mem", fmt.Sprintf("(mkslice %s (soff %s) (slen %s) (slen %s))", base, s.S, s.S, s.S), "Slice")}, true
 	case "github.com/bytedance/sonic/internal/rt.NoEscape":
 		return args[0], true
+	case "math.Signbit": // sign bit of an IEEE double (true for -0 and negative NaN as well)
+		nd := c.fresh("nansign", "Bool") // the sign of a NaN is not modelled
+		return Val{T: types.Typ[types.Bool], S: fmt.Sprintf("(ite (fp.isNaN %s) %s (fp.isNegative %s))", args[0].S, nd, args[0].S)}, true
 	case "sync/atomic.LoadPointer", "sync/atomic.LoadUint64", "sync/atomic.LoadInt64", "sync/atomic.LoadUint32", "sync/atomic.LoadInt32", "sync/atomic.LoadUintptr":
 		c.note("sync/atomic operations modelled with sequentially consistent single-thread semantics")
 		p := f.ptrPath(args[0], pos, "atomic.Load")
